@@ -226,6 +226,46 @@ pub fn generate<W: Write>(c: &mut Cases<W>, rng: &mut Rng, thorough: bool, which
             }
         }
     }
+    // C08: the merge function fails one of its calls (during a spill or a chunk merge); the caller goes on
+    // inserting.  However the failed call leaves the sorter, the number of chunks alive at the same time stays
+    // within the configured maximum plus two.
+    if which == "C08" {
+        for i in 0..(if thorough { 400u64 } else { 60 }) {
+            let cfg = gen_cfg_sorter(rng);
+            let cfg = SortCfg { stable: true, parallel: false, ..cfg };
+            let keys: Vec<Vec<u8>> = (0..rng.range(2, 8)).map(|_| gen_key(rng, 6)).collect();
+            let ins: Vec<(Vec<u8>, Vec<u8>)> = (0..rng.range(40, 160)).map(|j| (keys[rng.below(keys.len() as u64) as usize].clone(), vec![j as u8; (cfg.threshold / 16).max(1)])).collect();
+            let ctr = Rc::new(Counters::default());
+            let mf = LoggingConcat { calls: RefCell::new(Vec::new()), fail_at: Some((i as usize * 7) % 90), sort: false };
+            let maxc = cfg.max_chunks.max(1);
+            let r = catch(|| {
+                let mut sorter = build(&cfg, mf, ctr.clone());
+                let mut errs = 0u32;
+                for (k, v) in ins.iter() {
+                    if sorter.insert(k, v).is_err() {
+                        errs += 1;
+                    }
+                    if ctr.live.get() as u128 > maxc as u128 + 2 {
+                        return (errs, Some(ctr.live.get()));
+                    }
+                }
+                (errs, None)
+            });
+            c.bump("merge_failure_then_more_inserts", 1);
+            match r {
+                Ok((errs, over)) => {
+                    c.bump("merge_failure_then_more_inserts.with_an_error", (errs > 0) as u64);
+                    if let Some(n) = over {
+                        println!("DIRECT fail after a failed merge call (insert returned Err {} time(s)) and further inserts, {} chunks are alive at the same time (max_nb_chunks {} + 2 allowed); budget {} realloc {}",
+                                 errs, n, maxc, cfg.threshold, cfg.realloc);
+                    } else if ctr.peak.get() as u128 > maxc as u128 + 2 {
+                        println!("DIRECT fail after a failed merge call and further inserts, {} chunks were alive at the same time (max_nb_chunks {} + 2 allowed)", ctr.peak.get(), maxc);
+                    }
+                }
+                Err(_) => println!("DIRECT fail the sorter panicked when inserts went on after a failed merge call"),
+            }
+        }
+    }
     // C08: the public builder with the setters in either order (the budget set first or last)
     if which == "C08" {
         generate_public(c, rng, 36_000_000, &[(false, 2usize, true), (false, 2, false), (true, 3, true)]);
@@ -235,8 +275,13 @@ pub fn generate<W: Write>(c: &mut Cases<W>, rng: &mut Rng, thorough: bool, which
     // output is the sorted input
     if which == "C17" {
         let z0 = alloc_track::ZERO_SIZED.load(Relaxed);
-        for threshold in [0usize, 1, 15, 16, 17, 4096] {
+        for threshold in [0usize, 1, 15, 16, 17, 4096, usize::MAX, usize::MAX - 15, (isize::MAX as usize) + 1] {
             for realloc in [false, true] {
+                // (without reallocation the buffer IS the budget: a budget near the top of usize is a request for
+                //  that much memory, refused by any allocator; only the growing variant is meaningful there)
+                if !realloc && threshold > (1usize << 40) {
+                    continue;
+                }
                 // in a watchdog thread: a degenerate buffer must not make an insert loop forever
                 let (tx, rx) = std::sync::mpsc::channel();
                 std::thread::spawn(move || {
